@@ -62,6 +62,11 @@ def dbo_to_coq(I, d):
         I.s(d["cluster"]), els, coq_Z(d["ttl_days"]), I.s(d["policy"]))
 
 
+def shared_cluster(dbos):
+    """two objects naming different databases and the same non-empty cluster_name"""
+    return any(a["cluster"] and a["cluster"] == x["cluster"] and a.get("db", "") != x.get("db", "") for a in dbos for x in dbos)
+
+
 DB_NAMES = {"": 0}
 
 
@@ -567,6 +572,8 @@ def run_rotate(ck):
                 io = g["init"]
                 names = [d.get("db", "") for d in g["dbos"]]
                 for k, cond in (("init_several_databases", len(set(names)) > 1), ("init_database_named_twice", len(set(names)) < len(names)),
+                                ("init_several_databases_on_one_cluster", shared_cluster(g["dbos"])),
+                                ("init_several_databases_on_one_cluster_completed", shared_cluster(g["dbos"]) and not r["err"] and io["rotate_calls"] == 1),
                                 ("init_panicked", io["panicked"]), ("init_skipped_by_key", io["init_calls"] == 0 and not io["panicked"]),
                                 ("init_refused_key", io["init_calls"] == 0 and io["panicked"]), ("init_ctrl_Init_failed", bool(g.get("init_fails"))),
                                 ("init_OMIT_CREATE_TABLES_set", any(kv["k"] == "OMIT_CREATE_TABLES" for kv in g["env"]))):
@@ -581,6 +588,12 @@ def run_rotate(ck):
                 if kv["k"] == "SAMPLES_DAYS":
                     glue["samples_days_texts"][kv["v"]] = glue["samples_days_texts"].get(kv["v"], 0) + 1
     glue["samples_days_texts"] = len(glue["samples_days_texts"])
+    # round 8 (seeded C19-h went unseen because one history in twenty had this layout and that one ended in a refused
+    # timeout): the layout is now forced by the generator; the reach is an obligation, not a hope
+    ck.obligation("generator reach: process starts with several DIFFERENT databases on ONE cluster (same non-empty cluster_name) that ran to "
+                  "completion through initDB / ctrl.Rotate / RotateAll: %d (of %d with that layout)"
+                  % (glue.get("init_several_databases_on_one_cluster_completed", 0), glue.get("init_several_databases_on_one_cluster", 0)),
+                  glue.get("init_several_databases_on_one_cluster_completed", 0) >= 3, "fewer than 3")
     concs = [c["conc"] for c in cases if c.get("conc") is not None]
     conc = {"cases": len(concs), "instances": sum(len(x["cfgs"]) for x in concs), "granted_statements": sum(len(x["eff"]) for x in concs),
             "same_configuration": sum(1 for x in concs if all(y == x["cfgs"][0] for y in x["cfgs"])),
@@ -596,7 +609,8 @@ def run_rotate(ck):
                             "changes/reverts between runs, faults at call indexes (with and without effect); fault-at-every-index families; legacy "
                             "settings layouts; runs through RotateAll/rotateDB (good, bad and blank ttl_policy timeouts, several databases) and "
                             "through portCHEnv (SAMPLES_DAYS / port / key texts); process starts through func initDB of package main (1-3 configured "
-                            "databases each with its own state on the fake server, the variable boolEnv reads, a failing ctrl.Init); server clocks where "
+                            "databases each with its own state on the fake server - half of the histories with several objects, and the first four of every run, put "
+                            "two or three DIFFERENT databases on ONE cluster name -, the variable boolEnv reads, a failing ctrl.Init); server clocks where "
                             "only executed SELECTs/ALTERs take time and ties are answered either way; 2-3 concurrent Rotate goroutines under random schedules (same or "
                             "different configurations, crashed instances, completing runs); server clock 1 us .. 1.5 s per statement; "
                             "non-trivial = (>= 2 runs or concurrent instances) and >= 1 ALTER; distinct by content. ")
